@@ -4,6 +4,7 @@ import (
 	"errors"
 	"fmt"
 	"math/rand/v2"
+	"sort"
 	"strconv"
 	"strings"
 	"testing"
@@ -160,9 +161,31 @@ func (ts topicShare) of(master []string) []string {
 	if master == nil {
 		return nil
 	}
+	if len(ts) == 0 {
+		// the longest lists first, so that a list that is a prefix of another one becomes a shorter
+		// view of the same array (as an application slicing one list of topics would pass it)
+		all := append([][]string{}, topicSetsX...)
+		sort.SliceStable(all, func(i, j int) bool { return len(all[i]) > len(all[j]) })
+		ts["\x00seeded"] = []string{}
+		for _, m := range all {
+			ts.of(m)
+		}
+	}
 	k := strconv.Itoa(len(master)) + ":" + strings.Join(master, "\x00")
 	if sh, ok := ts[k]; ok {
 		return sh
+	}
+	keys := make([]string, 0, len(ts))
+	for kk := range ts {
+		keys = append(keys, kk)
+	}
+	sort.Strings(keys)
+	for _, kk := range keys {
+		ex := ts[kk]
+		if len(ex) > len(master) && eqStrings(ex[:len(master)], master) {
+			ts[k] = ex[:len(master)]
+			return ts[k]
+		}
 	}
 	sh := append(make([]string, 0, len(master)), master...)
 	ts[k] = sh
